@@ -198,9 +198,35 @@ def split_guards(cg, prog):
                 if not found:
                     ok = False
             if ok:
+                # the step has to come BEFORE fn calls anything that can lead back to fn: a recursive call made before
+                # the counter is stepped (or without stepping it at all on that path) is not counted
+                back = cg.reaches([fid])
+                snames = set(x[1] for x in sset)
+
+                def tstep(st, x):
+                    if x.k == "call" and x.callee in snames:
+                        return frozenset(["s"])
+                    if x.k == "un" and x.op in ("pre++", "post++") and x.kids[0].text() == counter:
+                        return frozenset(["s"])
+                    return st
+                IN2, OUT2 = flow.forward(fn, frozenset(), tstep, lambda a, b: a & b)
+                late = None
+                for b, st in IN2.items():
+                    for x in fn.blocks[b].elems:
+                        if x.k == "call" and x.callee and x.callee not in snames:
+                            tgt = cg.resolve_name(x.callee, fn.tu)
+                            if tgt in back and "s" not in st:
+                                late = x
+                        st = tstep(st, x)
+                if late is not None:
+                    UNSTEPPED[fid] = (counter, late)
+                    continue
                 out[fid] = "split guard on %s: steps it via %s, every call site is preceded by the test in %s" % (
                     counter, ",".join(sorted(x[1] for x in sset)), ",".join(sorted(tnames)))
     return out
+
+
+UNSTEPPED = {}
 
 
 def _recursion_rule(chk, prog, cg):
@@ -299,9 +325,15 @@ def _recursion_rule(chk, prog, cg):
             if bkey in BOUNDED_EXCEPTIONS:
                 pending_exc.append((bkey, cg.funcs[s[0]], cyc))
                 continue
+            why = ""
+            for fid_ in s:
+                if fid_ in UNSTEPPED:
+                    cnt_, late_ = UNSTEPPED[fid_]
+                    why = " (%s calls back into the cycle at %s before it has stepped %s, so that nesting is not counted)" % (
+                        fid_[1], late_.loc, cnt_)
             chk.violation(rule, cg.funcs[s[0]].tu.name, snames[0], key, cg.funcs[s[0]].loc,
                           "recursion cycle without any depth check: %s - unbounded nesting of the input overflows "
-                          "the native stack" % " -> ".join(cyc), cyc)
+                          "the native stack%s" % (" -> ".join(cyc), why), cyc)
     # single guarded functions that are their own component never enter all_guarded above unless cyclic; add them
     for bkey, f0, cyc in pending_exc:
         reason, needs = BOUNDED_EXCEPTIONS[bkey]
